@@ -411,6 +411,7 @@ Inductive aop :=
 | AAck
 | ACheck                          (* channel.check_for_errors() *)
 | AProcess                        (* channel.process_data_events() *)
+| AStart                          (* channel.start_consuming(): process until no consumer is left *)
 | ABuild                          (* list(channel.build_inbound_messages(break_on_empty=True)) *)
 | AStop                           (* channel.stop_consuming() *)
 | AClose                          (* channel.close() *)
@@ -731,6 +732,48 @@ Definition do_process (sc : script) (s : sys) (c : nat) (v : chan) : sys * chan 
   | _ => do_build sc s c v true
   end.
 
+(* start_consuming():  while not closed: process_data_events(); if consumer_tags: sleep; continue
+                                                              else: break                          *)
+Definition app_msgs (acc : list (Z * bytes * bytes)) (r : result) : result :=
+  match acc, r with
+  | [], _ => r
+  | _, RMsgs l => RMsgs (acc ++ l)
+  | _, RMsgsErr l e => RMsgsErr (acc ++ l) e
+  | _, RErr e => RMsgsErr acc (Some e)
+  | _, RHang => RMsgsErr acc (Some hang_err)
+  | _, ROther => RMsgsErr acc None
+  | _, _ => r
+  end.
+Fixpoint start_loop (fuel : nat) (sc : script) (s : sys) (c : nat) (v : chan)
+         (acc : list (Z * bytes * bytes)) : sys * chan * result * script :=
+  match fuel with
+  | O => (s, v, app_msgs acc RHang, sc)
+  | S fuel' =>
+    let v := cur s c v in
+    if st_eqb (c_state v) CLOSED then (s, v, RMsgs acc, sc)
+    else
+      let '(s1, v1, r, sc1) := do_process sc s c v in
+      match r with
+      | RMsgs l =>
+        let v2 := cur s1 c v1 in
+        match c_tags v2 with
+        | [] => (s1, v2, RMsgs (acc ++ l), sc1)
+        | _ =>
+          (* consumers left: sleep (one tick of the script) and go round again *)
+          match sc1 with
+          | [] => match l with
+                  | [] => (s1, v2, app_msgs acc RHang, sc1)      (* nothing will ever change *)
+                  | _ => start_loop fuel' [] s1 c v2 (acc ++ l)
+                  end
+          | tick :: rest => start_loop fuel' rest (deliver_all s1 tick) c v2 (acc ++ l)
+          end
+        end
+      | _ => (s1, v1, app_msgs acc r, sc1)
+      end
+  end.
+Definition do_start (sc : script) (s : sys) (c : nat) (v : chan) : sys * chan * result * script :=
+  start_loop (S (2 * (total_frames sc + length (c_inbound v) + length sc) + 8)) sc s c v [].
+
 (* ---------- one step and a whole scenario ---------- *)
 Definition run_rest (sc : script) (s : sys) : sys := fold_left deliver_all sc s.
 
@@ -776,6 +819,7 @@ Definition do_step (s : sys) (objs : list (nat * chan)) (carry : script) (stp : 
       | ACheck => let '(sa, va, w) := chan_check s0 c v in
                   (sa, va, match w with Raise e => RErr e | Ok _ => RNone end, sc)
       | AProcess => do_process sc s0 c v
+      | AStart => do_start sc s0 c v
       | ABuild => do_build sc s0 c v false
       | AStop => let '(sa, va, w, sca) := do_stop sc s0 c v in
                  (sa, va, match w with Raise e => RErr e | Ok _ => RNone end, sca)
@@ -789,7 +833,7 @@ Definition do_step (s : sys) (objs : list (nat * chan)) (carry : script) (stp : 
   (* a request that was never written is never answered: the replies scripted
      for it are dropped, only older frames stay queued *)
   let rest' := match st_op stp, s_out s1 with
-               | (AIdle | ACheck | AAck | AProcess | ABuild), _ => rest
+               | (AIdle | ACheck | AAck | AProcess | AStart | ABuild), _ => rest
                | _, [] => firstn (length rest - length (st_script stp)) rest
                | _, _ => rest
                end in
